@@ -236,6 +236,12 @@ def check_product(case, ctx):
     d2 = np.asarray(ctx.call(IK.gaussian, x, y, mu=mu))
     want_id = ndtr(x - mu[0]) * ndtr(y - mu[1])
     ctx.require(np.all(np.abs(d2 - want_id) <= 1e-12), "gaussian_defaults", lambda: "gaussian(x, y, mu) with default sigma %r vs unit-variance product %r" % (d2, want_id))
+    # documented form "sigma : float" = the equal variances of an isotropic kernel, as a Python or NumPy scalar
+    x4, y4 = mu[0] + zz[:, 0] * math.sqrt(vx), mu[1] + zz[:, 1] * math.sqrt(vx)
+    want4 = ndtr((x4 - mu[0]) / math.sqrt(vx)) * ndtr((y4 - mu[1]) / math.sqrt(vx))      # the standardised offsets as the routine sees them
+    for sc in (float(vx), np.float64(vx), np.array(vx)):
+        d4 = np.asarray(ctx.call(IK.gaussian, x4, y4, mu=mu, sigma=sc))
+        ctx.require(np.all(np.abs(d4 - want4) <= 1e-12), "gaussian_scalar_sigma", lambda: "gaussian(x, y, mu, sigma=%r as %s) %r vs isotropic product %r" % (vx, type(sc).__name__, d4, want4))
     d3 = np.asarray(ctx.call(IK.gaussian, zz[:, 0] * math.sqrt(vx), zz[:, 1] * math.sqrt(vy), sigma=[[vx, 0.0], [0.0, vy]]))
     ctx.require(np.all(np.abs(d3 - std) <= 1e-12), "gaussian_defaults", lambda: "gaussian(x, y, sigma=...) with default mu %r vs %r" % (d3, std))
 
